@@ -1,6 +1,6 @@
 (* inter_drv: models of the inter-procedural analyzers (Ana/InterTD.v, Ana/InterBU.v) on textual
    inter-procedural programs; same format as harness/intertext.hpp / inter.cpp.
-   Default mode: run the model (top-down: analyze_recursive_functions = false and thr = 0 only;
+   Default mode: run the model (top-down: thr = 0 only; rec=1 runs the model of Ana/InterTDRec.v;
    bottom-up: interval summaries, call graph without cycles), print tables and summaries, and
    run the Coq-verified certificate checker on the model's own result.
    Mode --validate: each line is "<case> ### <implementation answer>"; the Coq-verified checker
@@ -140,7 +140,21 @@ let eval toks =
   | Some wtos ->
     let entries = cg_entries c.prog in
     if opt c "an" "td" = "td" then begin
-      if opt c "rec" "0" = "1" || opt c "thr" "0" <> "0" then "UNMODELLED"
+      if opt c "thr" "0" <> "0" then "UNMODELLED"
+      else if opt c "rec" "0" = "1" then begin
+        (* analyze_recursive_functions = true: Ana/InterTDRec.v (theorems of Props/Properties_C09_rec.v) *)
+        match cg_recset c.prog with
+        | None -> "MODEL-ERROR cg-wto"
+        | Some rs ->
+          let maxc = (match opt c "mcc" "inf" with "inf" -> None | s -> Some (nat_of_int (int_of_string s))) in
+          let exact = opt c "exact" "1" = "1" in
+          let cgw = Array.init c.nf (fun e -> lazy (cg_wto c.prog (nat_of_int e))) in
+          let cgwto e = let i = int_of_nat e in if i < c.nf then Lazy.force cgw.(i) else [] in
+          let g = rec_run c.prog voff maxc exact delay desc efuel (nat_of_int 60) wtos cgwto (cg_wset c.prog) rs
+              (nat_of_int (c.nf + 2)) entries c.init in
+          if g.r_g.g_err then "MODEL-ERROR out-of-fuel"
+          else dump c g.r_g.g_pre g.r_g.g_post (g_summaries c.prog g.r_g)
+      end
       else match cg_recset c.prog with
         | None -> "MODEL-ERROR cg-wto"
         | Some rs ->
